@@ -32,6 +32,7 @@ func main() {
 	noControls := flag.Bool("nocontrols", false, "skip positive controls (used for variant children)")
 	overlay := flag.String("overlay", "", "file=replacement pairs, comma separated (analyse a variant)")
 	keysOnly := flag.Bool("keys", false, "print violated obligation keys only; write nothing")
+	patch := flag.String("patch", "", "unified diff to analyse as an overlay on the repository (the repository is not modified)")
 	replay := flag.String("replay", "", "replay file of a reported obligation: re-decide that obligation on the current tree; writes nothing")
 	flag.Parse()
 	var replayKey string
@@ -71,6 +72,16 @@ func main() {
 				os.Exit(2)
 			}
 			ov[p[0]] = b
+		}
+	}
+	if *patch != "" {
+		pov, err := rules.OverlayFromPatch(*repo, *patch)
+		if err != nil {
+			fmt.Println("patch:", err)
+			os.Exit(2)
+		}
+		for k, v := range pov {
+			ov[k] = v
 		}
 	}
 	code := func() (code int) {
